@@ -63,6 +63,17 @@ CLAIMED['C13'] = dict(
     technique='contract-based deductive verification: Python ast -> VC generator (loop invariants, anchored lemmas) -> z3',
     design='3 C13')
 
+CLAIMED['C09'] = dict(
+    text='Unbounded proof over the real C++ of reachable.cc (lowered mechanically from the clang AST on every run): representation '
+         'invariant of the bit matrix (row widths, clear padding), add_node keeps old answers and adds exactly the reflexive pair, '
+         'add_connection makes R\' = R union R(.,src) x R(dst,.) for every node count (any number of 64-bit buckets, self and duplicate '
+         'edges, dst row aliasing), is_reachable reads R; all int/size_t arithmetic in range and every operator[] in bounds. '
+         'The closure statement (R = reflexive-transitive closure of the inserted edges) follows by the Lean lemma lean/Closure.lean.',
+    note='Trusted: engine/ incl. the C++ lowering (cxxfront.py), clang, z3, Lean 4/Mathlib; A-SHIFT, A-STL, A-MEM, LP64. '
+         'typegraph.cc glue (NewCFGNode/ConnectTo/Program::is_reachable argument order) and cfg.cc wrappers: bounded native sweep vs BFS only.',
+    technique='contract-based deductive verification: clang JSON AST -> Python-subset lowering -> VC generator (loop invariants, BV64 + arrays) -> z3; Lean 4 closure lemma',
+    design='3 C09')
+
 NOT_APPLICABLE = {
     'C01': 'whole abstract interpreter vs CPython execution: no function-level contract expresses over-approximation of execution (DESIGN 4)',
     'C02': 'decided by matcher.py (2000 lines) on live VM values; the inhabitant oracle quantifies over programs, not one call (DESIGN 4)',
